@@ -85,6 +85,19 @@ func gen(t *rapid.T) Case {
 	// controls: plain, distinct
 	addOp("/control", "get", J{"operationId": "getControl"})
 	addOp("/control/{id}", "put", J{"operationId": "putControl", "tags": A{"ctl"}})
+	// ordinary operations in the remaining path shapes: the root path, a trailing slash sibling, a deep path
+	if rapid.IntRange(0, 2).Draw(t, "rootop") > 0 {
+		addOp("/", "get", J{"operationId": "getRoot"})
+		if rapid.Bool().Draw(t, "rootpost") {
+			addOp("/", "post", J{"operationId": "postRoot", "tags": A{"ctl"}})
+		}
+		if rapid.Bool().Draw(t, "basepath") {
+			doc["basePath"] = "/api"
+		}
+	}
+	if rapid.IntRange(0, 2).Draw(t, "deepop") == 0 {
+		addOp("/control/{id}/parts/{part}", "delete", J{"operationId": "deletePart"})
+	}
 	n := rapid.IntRange(0, 2).Draw(t, "ngroups") // 0: controls only
 	usedStem := map[string]bool{}
 	for g := 0; g < n; g++ {
@@ -210,6 +223,9 @@ func check(c Case) (o pbt.Outcome) {
 			if strings.HasPrefix(seg, "{") {
 				u = strings.Replace(u, seg, "v1", 1)
 			}
+		}
+		if bp, ok := doc["basePath"].(string); ok && bp != "/" {
+			u = bp + u
 		}
 		body := ""
 		h := map[string][]string{}
